@@ -2,6 +2,8 @@
 //! DESIGN.md Appendix A and prints canonical observations.
 
 pub mod api;
+pub mod bp;
+pub mod faults;
 pub mod framebuf;
 pub mod hbe2e;
 pub mod heartbeat;
@@ -20,6 +22,8 @@ pub trait Engine {
 pub fn make(name: &str) -> Option<Box<dyn Engine>> {
     match name {
         "api" => Some(Box::new(api::ApiEngine::default())),
+        "bp" => Some(Box::new(bp::BpEngine::default())),
+        "faults" => Some(Box::new(faults::FaultsEngine::default())),
         "framebuf" => Some(Box::new(framebuf::FrameBufEngine::default())),
         "hbe2e" => Some(Box::new(hbe2e::HbE2e::default())),
         "heartbeat" => Some(Box::new(heartbeat::HeartbeatEngine::default())),
